@@ -33,7 +33,7 @@ func runBidiCase[K comparable](c *core.Ctx, kind string, d *Dom[K]) {
 		m.VD = append(m.VD, 3, -6)
 	}
 	for s := 0; s < steps; s++ {
-		switch r.Pick(55, 25, 10, 8, 2) {
+		switch r.Pick(55, 25, 10, 8, 2, 2) {
 		case 0:
 			k, v := d.Val(r), vals[r.Intn(nv)]
 			kp := m.Mod.Has(k)
@@ -66,6 +66,8 @@ func runBidiCase[K comparable](c *core.Ctx, kind string, d *Dom[K]) {
 			} else {
 				m.Get(d.AnyVal(r))
 			}
+		case 5:
+			m.ReloadForeignBidi()
 		default:
 			if nv > 50 {
 				m.Get(d.AnyVal(r)) // a Clear every ~50 calls would keep a wide map small
@@ -161,7 +163,7 @@ func init() {
 		Run:   runC10,
 		Rule: "random Put/Remove/Get/Clear histories on HashBidiMap and TreeBidiMap (natural, reversed, coarsened key and value comparators) over 4-6 keys x 4-6 values, so that every collision kind occurs constantly. " +
 			"After every call Get is asked for every key and GetKey for every value of the alphabets (plus absent probes) and compared with a pair of inverse model maps; Get(k)=(v,true) <=> GetKey(v)=(k,true) is checked on the implementation's own answers; " +
-			"Size = len(Keys) = len(Values) = pairs, no duplicate or stale value. Every case is non-trivial (>= 30 calls); distinct = distinct hash of the call list.",
+			"Size = len(Keys) = len(Values) = pairs, no duplicate or stale value. About one call in fifty loads a foreign JSON document whose members repeat live values under other keys and keys with other values; which pair survives is not judged, the one-to-one conditions are, and the history continues from the re-read model. Every case is non-trivial (>= 30 calls); distinct = distinct hash of the call list.",
 		Floors: func(tier string, m map[string]int64) []string {
 			f := &floorCheck{m: m}
 			for _, k := range []string{"exact-repeat", "both", "same-key-new-value", "new-key-same-value"} {
@@ -173,6 +175,7 @@ func init() {
 			f.atLeast("keytype:float", 200)
 			f.atLeast("obs:huge-hash-cases", 3)
 			f.atLeast("ctor:builtin-comparator", 500)
+			f.atLeast("obs:bidi-foreign-load", 2000)
 			return f.missing
 		},
 		Files: []string{"maps/hashbidimap/hashbidimap.go", "maps/treebidimap/treebidimap.go"},
